@@ -113,24 +113,39 @@ pub fn clear_rules() {
     BREAKER_MAP.write().unwrap().clear();
 }
 
+/// `append_rule` adds one rule to the rules already loaded for its resource,
+/// the returned `bool` is false only if exactly this rule has been given before
+// This func acquires locks on global `CURRENT_RULES`, `BREAKER_MAP` and `BREAKER_RULES`
+// (in the same order as `load_rules`), please release your locks on them before calling this func
 pub fn append_rule(rule: Arc<Rule>) -> bool {
-    if CURRENT_RULES
-        .lock()
-        .unwrap()
+    let mut global_rule_map = CURRENT_RULES.lock().unwrap();
+    if global_rule_map
         .get(&rule.resource)
-        .unwrap_or(&HashSet::new())
-        .contains(&rule)
+        .map_or(false, |rules| rules.contains(&rule))
     {
         return false;
     }
-    match rule.is_valid() {
-        Ok(_) => {
-            CURRENT_RULES
-                .lock()
-                .unwrap()
-                .entry(rule.resource.clone())
-                .or_default()
-                .insert(Arc::clone(&rule));
+    if let Err(err) = rule.is_valid() {
+        logging::warn!(
+            "[CircuitBreaker append_rule] Ignoring invalid circuit breaking rule {:?}, reason: {:?}",
+            rule,
+            err
+        );
+        return true;
+    }
+    global_rule_map
+        .entry(rule.resource.clone())
+        .or_default()
+        .insert(Arc::clone(&rule));
+    let mut global_breaker_map = BREAKER_MAP.write().unwrap();
+    let cbs_of_res = global_breaker_map.entry(rule.resource.clone()).or_default();
+    // an equal rule (whatever its id) is already enforced, nothing to build
+    if !cbs_of_res.iter().any(|cb| cb.bound_rule() == &rule) {
+        let mut rule_set = HashSet::with_capacity(1);
+        rule_set.insert(Arc::clone(&rule));
+        // the breakers already enforced stay in place, so none of them hands over its statistic
+        let mut new_cbs = build_resource_circuit_breaker(&rule.resource, &rule_set, &mut Vec::new());
+        if !new_cbs.is_empty() {
             BREAKER_RULES
                 .write()
                 .unwrap()
@@ -138,29 +153,10 @@ pub fn append_rule(rule: Arc<Rule>) -> bool {
                 .or_default()
                 .insert(Arc::clone(&rule));
         }
-        Err(err) => logging::warn!(
-            "[Hot Spot append_rule] Ignoring invalid flow rule {:?}, reason: {:?}",
-            rule,
-            err
-        ),
+        cbs_of_res.append(&mut new_cbs);
     }
-    let mut placeholder = Vec::new();
-    let new_tcs_of_res = build_resource_circuit_breaker(
-        &rule.resource,
-        BREAKER_RULES.read().unwrap().get(&rule.resource).unwrap(),
-        BREAKER_MAP
-            .write()
-            .unwrap()
-            .get_mut(&rule.resource)
-            .unwrap_or(&mut placeholder),
-    );
-    if !new_tcs_of_res.is_empty() {
-        BREAKER_MAP
-            .write()
-            .unwrap()
-            .entry(rule.resource.clone())
-            .or_default()
-            .push(Arc::clone(&new_tcs_of_res[0]));
+    if cbs_of_res.is_empty() {
+        global_breaker_map.remove(&rule.resource);
     }
     true
 }
